@@ -181,12 +181,24 @@ func (m *machine) step(op ops.Op) (string, string) {
 		}
 	}
 	// modification times set through Chtimes
+	// a rename carries the entry and everything below it along, times included (only the two parent directories change)
+	moved := map[string]int64{}
+	if op.K == "rename" && rr.OK() && op.P != op.P2 {
+		for q, v := range m.mtimes {
+			if q == op.P || strings.HasPrefix(q, op.P+"/") {
+				moved[op.P2+q[len(op.P):]] = v
+			}
+		}
+	}
 	if mutating(op.K) && !(op.K == "chtimes" && op.Sec == 0) {
 		for q := range m.mtimes {
 			if related(q, op.P) || related(q, op.P2) {
 				delete(m.mtimes, q)
 			}
 		}
+	}
+	for q, v := range moved {
+		m.mtimes[q] = v // validated against the reference tree below like every other expectation
 	}
 	if op.K == "chtimes" && rr.OK() && op.Sec != 0 {
 		m.mtimes[op.P] = op.Sec
@@ -239,6 +251,18 @@ func run(t *testing.T, kind string) {
 					if rapid.IntRange(0, 3).Draw(rt, "rechtimes.real") == 0 {
 						op.Sec = int64(rapid.IntRange(1_000_000_000, 2_000_000_000).Draw(rt, "rechtimes.sec"))
 					}
+				}
+				if len(m.mtimes) > 0 && rapid.IntRange(0, 9).Draw(rt, "carrytimes") == 0 {
+					// an entry whose time was set (or the directory above it) moves: a rename carries times along
+					var ps []string
+					for q := range m.mtimes {
+						ps = append(ps, q)
+						if i := strings.LastIndex(q, "/"); i > 0 {
+							ps = append(ps, q[:i])
+						}
+					}
+					sort.Strings(ps)
+					op = ops.Op{K: "rename", P: rapid.SampledFrom(ps).Draw(rt, "carrytimes.p"), P2: gen.Random(rt, names, 2, false, "carrytimes.p2")}
 				}
 				s := sit.Of(op, tree)
 				if k := knownSig(kind, s); k != "" {
